@@ -340,7 +340,25 @@ class StmtMixin:
             yield (ex2 if ex2 is not None else exit_), s2
 
     def s_With(self, n, st, fx):
-        raise AnalysisError("unsupported statement With at %s:%d" % (fx.func.file, n.lineno))
+        # context managers are opaque: the context expressions are evaluated, targets bound to unknowns, the body runs
+        def go(i, s):
+            if i == len(n.items):
+                yield from self.block(n.body, s, fx)
+                return
+            it = n.items[i]
+            for r, t, s1 in self.ev(it.context_expr, s, fx):
+                if r == "raise":
+                    yield ("raise", t), s1
+                    continue
+                if it.optional_vars is not None:
+                    for ex, s2 in self.assign(it.optional_vars, ("unk", "with@%d" % n.lineno), s1, fx, n):
+                        if ex is not None:
+                            yield ex, s2
+                        else:
+                            yield from go(i + 1, s2)
+                else:
+                    yield from go(i + 1, s1)
+        yield from go(0, st)
 
     def s_Assert(self, n, st, fx):
         yield None, st
